@@ -1,0 +1,64 @@
+//go:build verif
+
+package ramfs
+
+import (
+	p9p "github.com/frobnitzem/go-p9p"
+)
+
+// Verification hooks (build tag "verif" only; add-only, no behaviour change).
+
+// VerifNewServer returns a fresh file server that does not share the
+// package-global tree.
+func VerifNewServer() p9p.FileSys {
+	fs := &fServer{
+		lastpath: 1,
+		root: &FileEnt{
+			nref:     1,
+			children: make(map[string]*FileEnt),
+			Info:     newDir(1, "/", "root", p9p.DMDIR|0775),
+		},
+	}
+	fs.root.fs = fs
+	return fs
+}
+
+// VerifNode is one node reachable from the root of a server's tree.
+type VerifNode struct {
+	Path  string // one path by which the node is reachable
+	Nref  int    // the node's reference count
+	Links int    // number of parent->child links pointing at it (the root counts one for the server)
+	IsDir bool
+	Len   int
+}
+
+// VerifRefTable walks the tree of a server made by VerifNewServer or NewServer
+// and reports every reachable node with its reference count and link count.
+func VerifRefTable(f p9p.FileSys) ([]VerifNode, bool) {
+	fs, ok := f.(*fServer)
+	if !ok {
+		return nil, false
+	}
+	links := map[*FileEnt]int{fs.root: 1}
+	paths := map[*FileEnt]string{fs.root: "/"}
+	order := []*FileEnt{fs.root}
+	for i := 0; i < len(order); i++ {
+		n := order[i]
+		for name, c := range n.children {
+			if _, seen := links[c]; !seen {
+				order = append(order, c)
+				p := paths[n]
+				if p != "/" {
+					p += "/"
+				}
+				paths[c] = p + name
+			}
+			links[c]++
+		}
+	}
+	out := make([]VerifNode, 0, len(order))
+	for _, n := range order {
+		out = append(out, VerifNode{Path: paths[n], Nref: n.nref, Links: links[n], IsDir: n.IsDir(), Len: len(n.Data)})
+	}
+	return out, true
+}
